@@ -12,35 +12,76 @@ open Spec
 
 /-! ## the value of the emitted constructor equals the data -/
 
-/-- Full-strength statement: every datum converts to an expression that evaluates (no error)
-to a Lua value equal to it. -/
+/-- Full-strength statement: whenever the conversion succeeds (it may refuse with an error),
+the emitted expression evaluates (no error) to a Lua value equal to the datum. -/
 def serialize_denotes_full : Prop :=
-  ∀ d : Data, ∃ v, evalExpr (toExpr d) = .ok v ∧ DataEq d v
+  ∀ (d : Data) (e : Expr), toExpr d = some e → ∃ v, evalExpr e = .ok v ∧ DataEq d v
 
-/-- F15 witness: the YAML document `{~: 1, .nan: 2}` -/
+/-- F15b witness: the YAML document `{0: a, -0.0: b}` — two keys that are one Lua key -/
+def f15bWitness : Data :=
+  .map (.cons (.u64 0) (.str [97]) (.cons (.f64 0x8000000000000000) (.str [98]) .nil))
+
+/-- **False on the current code (F15b)**: `{[0]='a',[-0]='b'}` evaluates to a table with the
+single key `0` holding `'b'`; the entry `0: a` of the document is lost. -/
+theorem serialize_denotes_full_false : ¬ serialize_denotes_full := by
+  intro h
+  obtain ⟨v, hv, hd⟩ := h f15bWitness
+    (.table (.keyed (.num 0) (.str [97]) (.keyed (.num 0x8000000000000000) (.str [98]) .nil))) (by rfl)
+  have hev : evalExpr (.table (.keyed (.num 0) (.str [97])
+      (.keyed (.num 0x8000000000000000) (.str [98]) .nil))) =
+      .ok (.table (.cons (.int 0) (.str [98]) .nil)) := by rfl
+  rw [hev] at hv
+  cases hv
+  simp only [f15bWitness, DataEq, MapEq, KeyEq] at hd
+  obtain ⟨t, ht, ⟨⟨key, ⟨b, hb, hk⟩, hval⟩, _⟩, _⟩ := hd
+  cases ht
+  have hb0 : b = 0 := by
+    have : nearestEven ((0 : Nat) : Int) b = (b == 0) := by simp [nearestEven]
+    rw [this] at hb
+    simpa using hb
+  subst hb0
+  have hk0 : toKey (.num 0) = .ok (.int 0) := by rfl
+  rw [hk0] at hk
+  cases hk
+  have : (ValMap.cons (.int 0) (.str [98]) .nil).get (.int 0) = .str [98] := by rfl
+  rw [this] at hval
+  cases hval
+
+/-- F15 witness (fixed): the YAML document `{~: 1, .nan: 2}` -/
 def f15Witness : Data :=
   .map (.cons .null (.u64 1) (.cons (.f64 0x7ff8000000000000) (.u64 2) .nil))
 
-/-- **False on the current code (F15)**: a null map key is emitted as `[nil] = …`, which
-raises "table index is nil" when the constructor runs. -/
-theorem serialize_denotes_full_false : ¬ serialize_denotes_full := by
-  intro h
-  obtain ⟨v, hv, _⟩ := h f15Witness
-  have : evalExpr (toExpr f15Witness) = .error .nilIndex := by rfl
-  rw [this] at hv
-  cases hv
+/-- regression for F15: the conversion now refuses the witness instead of emitting
+`{[nil]=1,[(0/0)]=2}` -/
+example : toExpr f15Witness = none := by rfl
 
-/-- the NaN key alone raises as well ("table index is NaN") -/
-theorem nan_key_raises :
-    evalExpr (toExpr (.map (.cons (.f64 0x7ff8000000000000) (.u64 2) .nil))) = .error .nanIndex := by
-  rfl
+/-- a null key is refused, whatever the value and the other entries (F15, fixed) -/
+theorem null_key_refused (v : Data) (tl : PairList) : toExpr (.map (.cons .null v tl)) = none := by
+  simp only [toExpr, mapEntries]
+  cases toExpr v <;> cases mapEntries tl <;> simp [completeTableEntry]
 
-/-- **Partial theorem**: for every datum satisfying `H14` (integers within `i64`/`u64`; every
-map key a string, boolean or non-NaN number; no two keys of a map equal as Lua keys), the
-emitted expression evaluates without error to a Lua value equal to the datum. -/
-theorem serialize_denotes_partial (d : Data) (h : H14 d = true) :
-    ∃ v, evalExpr (toExpr d) = .ok v ∧ DataEq d v :=
-  denotes intToF64_nearest d h
+/-- a NaN key is refused as well (F15, fixed) -/
+theorem nan_key_refused (b : Nat) (hb : isNaNBits b = true) (v : Data) (tl : PairList) :
+    toExpr (.map (.cons (.f64 b) v tl)) = none := by
+  simp only [toExpr, mapEntries]
+  cases toExpr v <;> cases mapEntries tl <;> simp [completeTableEntry, hb]
+
+example : toExpr (.map (.cons (.f64 0x7ff8000000000000) (.u64 2) .nil)) = none :=
+  nan_key_refused _ (by decide) _ _
+
+/-- **Partial theorem** (strictly larger region than before the fix of F15: null and NaN keys
+are no longer excluded). For every datum satisfying `H14` — integers within `i64`/`u64`; every
+map key a scalar or null (not a container); no two keys of a map equal as Lua keys — whenever
+the conversion succeeds, the emitted expression evaluates without error to a Lua value equal to
+the datum. -/
+theorem serialize_denotes_partial (d : Data) (h : H14 d = true) (e : Expr)
+    (he : toExpr d = some e) : ∃ v, evalExpr e = .ok v ∧ DataEq d v :=
+  denotes intToF64_nearest d h e he
+
+/-- and it does succeed when moreover no key is null or NaN (`KeysDenote`) -/
+theorem conversion_succeeds (d : Data) (h : H14 d = true) (hk : KeysDenote d = true) :
+    ∃ e, toExpr d = some e :=
+  toExpr_succeeds intToF64_nearest d h hk
 
 /-- a non-trivial datum inside `H14`: nested containers, a null inside an array and as a
 value, keys that are a keyword / start with a digit / empty / contain a quote and NUL /
@@ -55,25 +96,30 @@ def sampleDatum : Data :=
     (.cons (.i64 3) (.some (.bytes [0, 65, 255]))
     (.cons (.str [111, 107]) (.variant [86] (.seq .nil)) .nil))))))))
 
-example : H14 sampleDatum = true := by decide
-example : ∃ v, evalExpr (toExpr sampleDatum) = .ok v ∧ DataEq sampleDatum v :=
-  serialize_denotes_partial sampleDatum (by decide)
-/-- the F15 witness is outside `H14` (so the hypothesis excludes the defect) -/
-example : H14 f15Witness = false := by decide
+example : H14 sampleDatum = true ∧ KeysDenote sampleDatum = true := by decide
+example : ∃ e, toExpr sampleDatum = some e ∧ ∃ v, evalExpr e = .ok v ∧ DataEq sampleDatum v := by
+  obtain ⟨e, he⟩ := conversion_succeeds sampleDatum (by decide) (by decide)
+  exact ⟨e, he, serialize_denotes_partial sampleDatum (by decide) e he⟩
+/-- the F15 witness is now inside `H14` (the hypothesis no longer excludes it) -/
+example : H14 f15Witness = true := by decide
+/-- the F15b witness is outside `H14` (so the hypothesis excludes the remaining defect) -/
+example : H14 f15bWitness = false := by decide
 /-- what a null inside an array becomes: a hole -/
-example : evalExpr (toExpr (.seq (.cons (.u64 1) (.cons .null (.cons (.u64 3) .nil))))) =
-    .ok (.table (.cons (.int 3) (.num 0x4008000000000000) (.cons (.int 1) (.num 0x3ff0000000000000) .nil))) := by
+example : (toExpr (.seq (.cons (.u64 1) (.cons .null (.cons (.u64 3) .nil))))).map evalExpr =
+    some (.ok (.table (.cons (.int 3) (.num 0x4008000000000000) (.cons (.int 1) (.num 0x3ff0000000000000) .nil)))) := by
   rfl
-
 
 /-- **Corollary for documents with string keys** (everything JSON, JSON5 and TOML can express,
 and YAML documents whose mapping keys are strings): the hypothesis is stated on the data alone —
-integers within `i64`/`u64`, object keys pairwise different byte strings — and the emitted
-expression evaluates without error to a value equal to the document. In particular an object
-becomes a table with exactly the same string keys, whatever bytes they contain. -/
+integers within `i64`/`u64`, object keys pairwise different byte strings — and the conversion
+succeeds with an expression that evaluates without error to a value equal to the document. In
+particular an object becomes a table with exactly the same string keys, whatever bytes they
+contain. -/
 theorem serialize_denotes_json (d : Data) (h : JsonLike d = true) :
-    ∃ v, evalExpr (toExpr d) = .ok v ∧ DataEq d v :=
-  serialize_denotes_partial d (H14_of_jsonLike d h)
+    ∃ e, toExpr d = some e ∧ ∃ v, evalExpr e = .ok v ∧ DataEq d v := by
+  have hH := H14_of_jsonLike d h
+  obtain ⟨e, he⟩ := conversion_succeeds d hH (keysDenote_of_jsonLike d h)
+  exact ⟨e, he, serialize_denotes_partial d hH e he⟩
 
 /-- keys: a keyword, digit-first, empty, quote+NUL+apostrophe, non-ASCII, an identifier;
 values: nested arrays with nulls, integers beyond 2^53, an empty object -/
@@ -86,19 +132,8 @@ def sampleJson : Data :=
     (.cons (.str [111, 107, 95, 49]) (.f64 0x3ff8000000000000) .nil))))))
 
 example : JsonLike sampleJson = true := by decide
-example : ∃ v, evalExpr (toExpr sampleJson) = .ok v ∧ DataEq sampleJson v :=
+example : ∃ e, toExpr sampleJson = some e ∧ ∃ v, evalExpr e = .ok v ∧ DataEq sampleJson v :=
   serialize_denotes_json sampleJson (by decide)
-
-/-- **The defect region is real for every document, not only the witness**: whatever the value
-and the other entries, a map whose first key is null makes the emitted constructor raise
-`table index is nil` (F15). -/
-theorem null_key_always_raises (v : Data) (tl : PairList) :
-    evalExpr (toExpr (.map (.cons .null v tl))) = .error .nilIndex := by
-  simp only [toExpr, mapEntries, completeTableEntry, evalExpr, evalEntries, toKey]
-
-example : evalExpr (toExpr (.map (.cons .null (.seq (.cons (.u64 1) .nil)) (.cons (.str [97]) .null .nil)))) =
-    .error .nilIndex :=
-  null_key_always_raises _ _
 
 /-! ## integers become the nearest double -/
 
@@ -141,71 +176,121 @@ theorem namedAll_hexArgs : (bs : Bytes) → NamedAllArgs isLuaIdent (hexArgs bs)
     simp only [hexArgs, NamedAllArgs, NamedAll, true_and]
     exact namedAll_hexArgs rest
 
-theorem namedAll_complete (k v : Expr) (tl : EntryList) (hk : NamedAll isLuaIdent k)
-    (hv : NamedAll isLuaIdent v) (ht : NamedAllEntries isLuaIdent tl) :
-    NamedAllEntries isLuaIdent (completeTableEntry k v tl) := by
-  unfold completeTableEntry
-  split
+theorem namedAll_complete (k v : Expr) (tl es : EntryList) (hk : NamedAll isLuaIdent k)
+    (hv : NamedAll isLuaIdent v) (ht : NamedAllEntries isLuaIdent tl)
+    (hc : completeTableEntry k v tl = some es) : NamedAllEntries isLuaIdent es := by
+  unfold completeTableEntry at hc
+  split at hc
   · rename_i s
+    simp only [Option.some.injEq] at hc
+    subst hc
     split
     · rename_i hs
       rw [isValidIdentifier_eq] at hs
       exact ⟨hs, hv, ht⟩
     · exact ⟨by simp [NamedAll], hv, ht⟩
-  · exact ⟨hk, hv, ht⟩
+  · cases hc
+  · split at hc
+    · cases hc
+    · simp only [Option.some.injEq] at hc
+      subst hc
+      exact ⟨by simp [NamedAll], hv, ht⟩
+  · simp only [Option.some.injEq] at hc
+    subst hc
+    exact ⟨hk, hv, ht⟩
 
 mutual
-theorem namedAll_toExpr : (d : Data) → NamedAll isLuaIdent (toExpr d)
-  | .null => by simp [toExpr, NamedAll]
-  | .bool b => by cases b <;> simp [toExpr, NamedAll]
-  | .i64 _ => by simp [toExpr, NamedAll]
-  | .u64 _ => by simp [toExpr, NamedAll]
-  | .f64 _ => by simp [toExpr, NamedAll]
-  | .str _ => by simp [toExpr, NamedAll]
-  | .bytes bs => by
-    simp only [toExpr, NamedAll, true_and]
+theorem namedAll_toExpr : (d : Data) → (e : Expr) → toExpr d = some e → NamedAll isLuaIdent e
+  | .null, e, h => by simp only [toExpr, Option.some.injEq] at h; subst h; simp [NamedAll]
+  | .bool b, e, h => by
+    simp only [toExpr, Option.some.injEq] at h; subst h
+    cases b <;> simp [NamedAll]
+  | .i64 _, e, h => by simp only [toExpr, Option.some.injEq] at h; subst h; simp [NamedAll]
+  | .u64 _, e, h => by simp only [toExpr, Option.some.injEq] at h; subst h; simp [NamedAll]
+  | .f64 _, e, h => by simp only [toExpr, Option.some.injEq] at h; subst h; simp [NamedAll]
+  | .str _, e, h => by simp only [toExpr, Option.some.injEq] at h; subst h; simp [NamedAll]
+  | .bytes bs, e, h => by
+    simp only [toExpr, Option.some.injEq] at h; subst h
+    simp only [NamedAll, true_and]
     exact namedAll_hexArgs bs
-  | .some d => by
-    simp only [toExpr]
-    exact namedAll_toExpr d
-  | .seq xs => by
-    simp only [toExpr, NamedAll]
-    exact namedAll_seq xs
-  | .map kvs => by
-    simp only [toExpr, NamedAll]
-    exact namedAll_map kvs
-  | .variant name d => by
-    simp only [toExpr, NamedAll]
-    exact namedAll_complete _ _ _ (by simp [NamedAll]) (namedAll_toExpr d) (by simp [NamedAllEntries])
-theorem namedAll_seq : (xs : DataList) → NamedAllEntries isLuaIdent (seqEntries xs)
-  | .nil => by simp [seqEntries, NamedAllEntries]
-  | .cons d tl => by
-    simp only [seqEntries, NamedAllEntries]
-    exact ⟨namedAll_toExpr d, namedAll_seq tl⟩
-theorem namedAll_map : (kvs : PairList) → NamedAllEntries isLuaIdent (mapEntries kvs)
-  | .nil => by simp [mapEntries, NamedAllEntries]
-  | .cons k v tl => by
-    simp only [mapEntries]
-    exact namedAll_complete _ _ _ (namedAll_toExpr k) (namedAll_toExpr v) (namedAll_map tl)
+  | .some d, e, h => by
+    simp only [toExpr] at h
+    exact namedAll_toExpr d e h
+  | .seq xs, e, h => by
+    simp only [toExpr] at h
+    cases hs : seqEntries xs with
+    | none => simp [hs] at h
+    | some es =>
+      simp only [hs, Option.some.injEq] at h; subst h
+      simp only [NamedAll]
+      exact namedAll_seq xs es hs
+  | .map kvs, e, h => by
+    simp only [toExpr] at h
+    cases hs : mapEntries kvs with
+    | none => simp [hs] at h
+    | some es =>
+      simp only [hs, Option.some.injEq] at h; subst h
+      simp only [NamedAll]
+      exact namedAll_map kvs es hs
+  | .variant name d, e, h => by
+    simp only [toExpr] at h
+    cases hd : toExpr d with
+    | none => simp [hd] at h
+    | some ve =>
+      cases hc : completeTableEntry (.str name) ve .nil with
+      | none => simp [hd, hc] at h
+      | some es =>
+        simp only [hd, hc, Option.some.injEq] at h; subst h
+        simp only [NamedAll]
+        exact namedAll_complete _ _ _ _ (by simp [NamedAll]) (namedAll_toExpr d ve hd)
+          (by simp [NamedAllEntries]) hc
+theorem namedAll_seq : (xs : DataList) → (es : EntryList) → seqEntries xs = some es →
+    NamedAllEntries isLuaIdent es
+  | .nil, es, h => by simp only [seqEntries, Option.some.injEq] at h; subst h; simp [NamedAllEntries]
+  | .cons d tl, es, h => by
+    cases hd : toExpr d with
+    | none => simp [seqEntries, hd] at h
+    | some e =>
+      cases ht : seqEntries tl with
+      | none => simp [seqEntries, hd, ht] at h
+      | some es' =>
+        simp only [seqEntries, hd, ht, Option.some.injEq] at h; subst h
+        exact ⟨namedAll_toExpr d e hd, namedAll_seq tl es' ht⟩
+theorem namedAll_map : (kvs : PairList) → (es : EntryList) → mapEntries kvs = some es →
+    NamedAllEntries isLuaIdent es
+  | .nil, es, h => by simp only [mapEntries, Option.some.injEq] at h; subst h; simp [NamedAllEntries]
+  | .cons k v tl, es, h => by
+    cases hk : toExpr k with
+    | none => simp [mapEntries, hk] at h
+    | some ke =>
+      cases hv : toExpr v with
+      | none => simp [mapEntries, hk, hv] at h
+      | some ve =>
+        cases ht : mapEntries tl with
+        | none => simp [mapEntries, hk, hv, ht] at h
+        | some es' =>
+          simp only [mapEntries, hk, hv, ht] at h
+          exact namedAll_complete _ _ _ _ (namedAll_toExpr k ke hk) (namedAll_toExpr v ve hv)
+            (namedAll_map tl es' ht) h
 end
 
 /-- **Key form soundness**: wherever the emitted expression uses the field form `k = v`, `k`
 is a Lua 5.1 Name (letters, digits, underscores, not starting with a digit) and not one of
 the 21 reserved words. No hypothesis on the data. -/
-theorem key_form_sound (d : Data) : NamedAll isLuaIdent (toExpr d) :=
-  namedAll_toExpr d
+theorem key_form_sound (d : Data) (e : Expr) (h : toExpr d = some e) : NamedAll isLuaIdent e :=
+  namedAll_toExpr d e h
 
 /-- and exactly then: a string key is written `k = v` iff it is such a name, otherwise
 `["k"] = v` (so keywords, empty strings, keys starting with a digit, keys with quotes,
 newlines, NUL or non-ASCII bytes are all bracketed). -/
 theorem key_form_exact (s : Bytes) (v : Expr) (tl : EntryList) :
     completeTableEntry (.str s) v tl =
-      if isLuaIdent s then .named s v tl else .keyed (.str s) v tl := by
+      some (if isLuaIdent s then .named s v tl else .keyed (.str s) v tl) := by
   simp only [completeTableEntry, isValidIdentifier_eq]
 
 /-- the field form does occur, and a keyword key does not get it -/
 example : toExpr (.map (.cons (.str [97, 95, 49]) .null (.cons (.str [100, 111]) .null .nil))) =
-    .table (.named [97, 95, 49] .nil (.keyed (.str [100, 111]) .nil .nil)) := by rfl
+    some (.table (.named [97, 95, 49] .nil (.keyed (.str [100, 111]) .nil .nil))) := by rfl
 example : isLuaIdent [97, 95, 49] = true ∧ isLuaIdent [100, 111] = false ∧ isLuaIdent [49, 97] = false
     ∧ isLuaIdent [] = false ∧ isLuaIdent [195, 169] = false := by decide
 
